@@ -833,7 +833,7 @@ def c20_boundary(state):
         after = _state_digest(run, tree)
         if after[1] != before[1]:
             viol.append(V("C20/report-evaluated-objective", f"boundary {tree.metaepoch_count}: reporting/accessors invoked the objective {after[1]-before[1]} times"))
-        if after[0] != before[0]:
+        if after[0] != before[0] or before[0].get("report_side_effect") or after[0].get("report_side_effect"):
             viol.append(V("C20/report-changed-state", f"boundary {tree.metaepoch_count}: reporting/accessors changed the observable state of the tree"))
         if after[2] != before[2] or after[3] != before[3]:
             viol.append(V("C20/report-consumed-randomness", f"boundary {tree.metaepoch_count}: reporting/accessors changed a global random generator state"))
